@@ -23,6 +23,21 @@ CHECKS = {
    "Generated filter trees (depth<=3 at filter and range level; Eq/Gt/Ge/Lt/Le/Between incl. inverted/Include incl. duplicates and empty/And/Or/Not) over _id and seven B-tree indexes of collections whose values are independent of ids (duplicates, arrays, map keys, missing optionals, non-contiguous ids): query_all_ids must equal the evaluator's set, query_ids/query_last_ids must equal the first/last min(limit,MAX_SEARCH_LIMIT) ids of it for limits None,0,1..n+1,MAX,MAX+1 (a >1000-match collection exercises the clamp); Between vs And(Ge,Le), double negation, operand permutation, De Morgan and filter-level vs range-level Or must agree on the real code; search_ids with a filter is recomputed from the BM25/HNSW views + RRFReranker; over-budget and mistyped filters must be refused.",
    "Holds for the generated trees and collections. Empty And/Or only at the range level (pinned semantics). Candidate recomputation for search_ids trusts the public index views.",
    "DESIGN.md C03"),
+ "C04": ("v_db", "exploration",
+   "model-based runtime monitor on high-contention histories + controlled schedules of contending writers (gated object store + manual executor, DFS then random) + crash-point enumeration",
+   "Sequential histories with 3-5 distinct unique values over three unique constraints (scalar, array, composite): after every rejected write of five classes (conflict, schema, unknown field, missing id, wrong vector dimension after other indexes were touched) the full index<->document audit runs against the unchanged model, every unique value is scanned for a second owner, values released by update/remove are claimed again by the very next operation, and updates changing several unique fields with a late conflict are provoked; 2-3 concurrent adds/updates contending for one value run under enumerated schedules at backend-call granularity: at most one winner, losers leave no trace (audit), the value is claimable after the winner is removed; the C01 crash-point enumeration runs on high-contention histories.",
+   "Holds for the histories/schedules generated. Async interleavings are controlled at backend calls; the index crates' in-lock uniqueness re-checks under OS-thread preemption are exercised by C10's hook schedules.",
+   "DESIGN.md C04"),
+ "C05": ("v_db", "exploration",
+   "systematic schedule exploration (stateless DFS over which task performs its next backend call, random beyond the budget) with a linearizability checker over recorded call/return histories, version-window check for overlapping reads, flush-snapshot prefix check; multi-thread stress",
+   "Configurations of 2-4 concurrent operations (add, update, remove, get, search, save/remove_extension, flush, compaction; same-document, different-document and doc-lock-stripe-sharing targets; cache on/off) over a pre-flushed collection are re-executed from a fresh store per schedule; oracles: (1) a total order of the mutations respecting real time explains every return value (ids distinct, update returns the document built on its predecessor, exactly one concurrent remove returns the document, NotFound/conflict only where the order says so), (2) overlapping gets return a whole document from the version window of a valid order, (3) final documents equal a valid order's result and pass the full audit, (4) the store snapshotted at the instant a concurrent flush returns reopens to the state after exactly the mutations that had returned, which must be a prefix of a valid order, and passes the audit. A multi-thread runtime stress (8 tasks x 120-400 ops) checks convergence.",
+   "Schedules are enumerated at backend-call/lock-wait granularity on one thread; exhaustive only where the DFS completed (counted). Preemption between arbitrary instructions is only sampled by the multi-thread stress. Searches overlapping writers run as load only.",
+   "DESIGN.md C05"),
+ "C06": ("v_db", "exploration",
+   "cancellation-point enumeration (poll k times then drop, before and after each landed backend mutation) + lifecycle-transition schedules + mutation-log silence oracle on a recording object store",
+   "Silence: after close, close_collection, delete_collection, poison by cancellation, poison by a failed flush and in both read-only modes every mutating API (add, update, remove, flush, save/remove_extension, set_extension+flush, compactions, reconcile, set_read_only(false)+add, close) and the read APIs are called on the retained handle: typed rejection, never Active again, zero effective mutations under the collection prefix, empty prefix after delete. Queued: 1-2 adds in flight/queued while close/close_collection/delete_collection starts, schedules enumerated: nothing writes after the transition returned, accepted adds are reflected after reopen, delete leaves nothing. Cancel: 13 APIs (10 collection-level, 3 database-level) are dropped after k = 1.. polls until completion, with suspension points before and after each landed mutation: handle unchanged-and-Active or Poisoned; poisoned handles reject everything and write nothing; reopening through the database completes, never yields two Active handles, and gives the old or the new state in full (audit); a cancelled delete is finished by a retry.",
+   "Suspension points are backend calls and async lock waits (every await in these paths is one of them). Holds for the populations generated.",
+   "DESIGN.md C06"),
  "C10": ("v_idx", "exploration",
    "model-based runtime monitor (BTreeMap oracle after every op) + crash-prefix enumeration of recorded flush writes + controlled thread schedules at verif_point hooks with per-key linearizability checking",
    "Runs the real BTreeIndex under seeded histories with minimum bucket size; after every operation all read APIs (point, keys paging, range trees depth<=3 in both directions with early stop, prefix) are compared with a BTreeMap model and the structural invariant walker runs; every prefix of every flush's bucket/metadata/delete write sequence is loaded and must equal the previous or the new commit exactly (plus failed flush + retry, legacy layout); 2-3 OS threads are scheduled at verif_point hooks (DFS over grant choices, random beyond the budget) and each key's call/return history must be linearizable, the invariant walker must pass and flush+reload must equal memory.",
